@@ -419,3 +419,13 @@ def file_offset(files, i):
 @native
 def files_wellformed(files):
     return all(isinstance(f, dict) and f.get("length", -1) >= 0 for f in files)
+
+
+@native
+def path_is_str(paths, i):
+    return not (0 <= i < len(paths)) or isinstance(paths[i], str)
+
+
+@native
+def fileinfo_wellformed(fileinfo, i, layers, pl):
+    return True
